@@ -63,11 +63,11 @@ PROPS = {
         module="Anonymongo.Props.C15",
         theorems=["Anonymongo.C15_other_ns", "Anonymongo.C15_eager_iff", "Anonymongo.C15_key_rename", "Anonymongo.C15_siblings", "Anonymongo.C15_refs",
                   "Anonymongo.C15_values", "Anonymongo.C15_plan_collscan", "Anonymongo.C15_plan_instances", "Anonymongo.C15_plan_def", "Anonymongo.C15_plan_consistent",
-                  "Anonymongo.C15_plan_general", "Anonymongo.redactIndexField_member", "Anonymongo.redactIxscans_no_I", "Anonymongo.C15_bare_core_keys"],
-        extra_modules=["Anonymongo.Props.C15b"],
+                  "Anonymongo.C15_plan_general", "Anonymongo.redactIndexField_member", "Anonymongo.redactIxscans_no_I", "Anonymongo.C15_bare_core_keys", "Anonymongo.C15_plan_all", "Anonymongo.redactIxscans_plan", "Anonymongo.redactIxscans_pre"],
+        extra_modules=["Anonymongo.Props.C15b", "Anonymongo.Props.C15c"],
         corr=["line", "misc", "sweep", "arb"],
         statement="a line whose attr.ns no configured path prefixes is redacted exactly as without the flag; the mode is on for every command document of a gated line iff some path is a prefix of attr.ns; with the mode on the query walker renames a non-operator key to hashName key and keeps operator keys, one output member per input member in order; a '$field' reference that is not an operator name becomes hashName field - the same pseudonym as the key - in the query walker, the array walker and as a direct value in the stage walker; values that are not '$...' strings are redacted as without the flag; plan summary: COLLSCAN unchanged, each index key rewritten where it stands, with the same function the filter keys go through - GENERAL (C15_plan_general): for an index scan over ANY number of well-formed members (spaces, key, spaces, colon, direction) every key is replaced where it stands by its OWN pseudonym whatever the other keys are, spacing / directions / separators kept, text without a further scan unchanged; plus kernel-evaluated instances incl. overlapping names",
-        partial="C15_plan_general is stated for a summary that STARTS with the index scan (a scan further in is reached through the tail, redactIxscans on the rest) and for well-formed members; odd shapes (empty members, several colons, missing braces) are corresponded (2.5k generated summaries) and run through the hostile-line oracle; 'no such name remains anywhere in the line' holds for the listed positions only: KNOWN FINDINGS (recorded in known_findings.jsonl, README marks the feature experimental): projection document and distinct key not walked, Atlas Search path arguments, arrays of names under FieldName-typed arguments; the stage walker also renames expression operators missing from the tables ($sum, $cond ...) - over-renaming, not a leak",
+        partial="C15_plan_all (Props/C15c) covers summaries with ANY number of index scans ANYWHERE (pre1 SCAN1 ... pren SCANn tail, the text around the scans holding no 'IX': FETCH, IDHACK, OR {…}, COUNT_SCAN, DISTINCT_SCAN, TEXT all allowed) over well-formed members: every key of every scan is replaced where it stands by its own pseudonym and nothing else is touched (C15_plan_general is the one-scan-at-the-start case); odd shapes (empty members, several colons, missing braces) are corresponded (2.5k generated summaries) and run through the hostile-line oracle; 'no such name remains anywhere in the line' holds for the listed positions only: KNOWN FINDINGS (recorded in known_findings.jsonl, README marks the feature experimental): projection document and distinct key not walked, Atlas Search path arguments, arrays of names under FieldName-typed arguments; the stage walker also renames expression operators missing from the tables ($sum, $cond ...) - over-renaming, not a leak",
     ),
     "C16": dict(
         module="Anonymongo.Props.C16",
